@@ -434,6 +434,17 @@ theorem C07_wrapOpts_para_D18_witness :
   ⟨BridgeWrap.of_okEq (by decide +kernel), BridgeWrap.of_okEq (by decide +kernel),
     BridgeWrap.of_okEq (by decide +kernel), by decide, by decide, by decide, by decide, by decide⟩
 
+/-- the limit of the repair, as a checked fact (FINDING, residual of D18): for the 68-rune line
+separator U+0041 … U+0084 the stand-in is U+0085 (NEL), which is white space; Wrap collapses the
+stand-ins and the removal by count deletes the paragraph `"x"` as before the repair -/
+theorem C07_wrapOpts_para_placeholder_limit :
+    cxA.placeholder ((List.range 68).map fun (i : Nat) => (0x41 + (i : Int))) = 0x85 ∧
+    cxA.isSpace 0x85 = true ∧
+    (Editor.wrapOpts cxA (.root [0x78, 0x0A, 0x0A, 0x79] {}) 20
+        { preservePara := true, lineSep := (List.range 68).map fun (i : Nat) => (0x41 + (i : Int)) }).map
+      Editor.text = .ok [0x0A, 0x0A, 0x79] :=
+  ⟨by decide +kernel, by decide +kernel, BridgeWrap.of_okEq (by decide +kernel)⟩
+
 end C07_public
 
 end RosedVerif.Props
